@@ -31,7 +31,9 @@ func treeHashExcludingState(root string) string {
 	tmp := map[string]bool{}
 	_ = tmp
 	return treeHashFiltered(root, func(rel string) bool {
-		return rel == ".dawn" || strings.HasPrefix(rel, ".dawn/") || rel == ".exec.log" || rel == ".hooks.log" || strings.HasPrefix(rel, ".home") || rel == ".report.json"
+		// the build-state directory is <root>/.dawn/build; its siblings inside .dawn (a module cache when the project is
+		// rooted at $HOME, files of other tools) are OUTSIDE it
+		return rel == ".dawn/build" || strings.HasPrefix(rel, ".dawn/build/") || rel == ".exec.log" || rel == ".hooks.log" || strings.HasPrefix(rel, ".home") || rel == ".report.json"
 	})
 }
 
@@ -126,7 +128,7 @@ func (r *engRun) gc(index bool) {
 			r.oracle("C14 gc left %d stray temporaries", len(entries))
 		}
 		// ... wherever they are: after a collection the state directory holds records and the index, nothing else
-		filepath.WalkDir(filepath.Join(r.root, ".dawn"), func(p string, d fs.DirEntry, err error) error {
+		filepath.WalkDir(filepath.Join(r.root, ".dawn", "build"), func(p string, d fs.DirEntry, err error) error {
 			if err != nil || d.IsDir() {
 				return nil
 			}
@@ -205,6 +207,12 @@ func runEngHistory(t *testing.T, self string, base string, seed int64, index int
 	os.WriteFile(filepath.Join(root, "dawn.toml"), nil, 0644)
 	os.WriteFile(filepath.Join(root, "body.sh"), []byte(engBodySh), 0755)
 	os.MkdirAll(filepath.Join(root, ".home"), 0755)
+	// things that live next to the build-state directory, inside .dawn: never dawn's to touch
+	for rel, c := range map[string]string{".dawn/modules/cache/example.com/lib@v1.0.0/dawn.toml": "[project]\nname = 'lib'\n",
+		".dawn/settings.toml": "# not dawn's\n", ".dawn/build.bak/targets/%2Fkeep": "{}\n", ".dawn/builds": "x\n"} {
+		os.MkdirAll(filepath.Dir(filepath.Join(root, rel)), 0755)
+		os.WriteFile(filepath.Join(root, rel), []byte(c), 0644)
+	}
 	if index < len(engScenarios) {
 		engScenarios[index](r)
 		return r.h
